@@ -146,14 +146,12 @@ func (s *Service) onFindNode(ctx context.Context, peer p2p.Peer, stream p2p.Stre
 	target := boson.NewAddress(req.Target)
 	skip := []boson.Address{peer.Address}
 
-	var (
-		limitConn  = 1
-		limitKnown = 1
-	)
-	if req.Limit > 2 {
-		limitKnown = int(req.Limit / 2)
-		limitConn = int(req.Limit) - limitKnown
+	// never return more peers than requested, also for limits below 3
+	if req.Limit < 0 {
+		req.Limit = 0
 	}
+	limitKnown := int(req.Limit / 2)
+	limitConn := int(req.Limit) - limitKnown
 
 	addrFunc := func(address boson.Address, u uint8) (stop, jumpToNext bool, err error) {
 		if address.MemberOf(skip) {
